@@ -113,9 +113,9 @@ def rule_one_end(ctx):
         conn = [a.arg for a in w.args.args][1]
         sigs = handler_path_sigs(p, w, conn, ctx)
         for (codes, spawned, cancels, ret), pf in sorted(sigs.items(), key=lambda kv: str(kv[0])):
-            ctx.ob("C05.ONE", pf.replies[-1][1] if pf.replies else w, f"{w.name}: normal path emits exactly one 2xx completion reply {codes}",
-                   len(codes) == 1 and (codes[0] or "").startswith("2"),
-                   f"{w.name}: normal path emits {codes} (must be exactly one 2xx completion reply)", construct=f"{w.name}:replies={codes}")
+            ctx.ob("C05.ONE", pf.replies[-1][1] if pf.replies else w, f"{w.name}: normal path emits exactly one completion reply {codes}",
+                   len(codes) == 1 and (codes[0] or "")[:1] in ("2", "4", "5"),
+                   f"{w.name}: normal path emits {codes} (must be exactly one completion reply)", construct=f"{w.name}:replies={codes}")
     # worker guard: cancellation path = 426 then 226, nothing else
     wr = p.wrapper_of("worker")
     wconn = [a.arg for a in wr.args.args][1]
@@ -477,11 +477,34 @@ def rule_codes(ctx):
     wait = [d.get("wait_codes")] if isinstance(d.get("wait_codes"), str) else list(d.get("wait_codes") or [])
     for h, w in p.workers():
         wc = [a.arg for a in w.args.args][1]
-        comp = {c for pf in handler_path_sigs(p, w, wc).values() for c, _ in pf.replies if c}
-        ok = bool(comp) and all(any(mask_matches(m, x) for m in exp) for x in comp)
+        comp_all = {c for pf in handler_path_sigs(p, w, wc).values() for c, _ in pf.replies if c}
+        comp = {x for x in comp_all if x[0] in "123"}
+        ok = bool(comp) and all(any(mask_matches(m, x) for m in exp) for x in comp) and not any(any(mask_matches(m, x) for m in exp) for x in comp_all - comp)
         ctx.ob("C05.CODES", w, f"{w.name}: completion codes {sorted(comp)} match the client's finish() expected {exp}", ok,
                f"{w.name}: completion codes {sorted(comp)} do not match the client's finish() expected masks {exp}", construct=f"{w.name}:completion")
     ctx.floor("C05.CODES", 20, "client command sites")
 
 
-RULES = [rule_one_end, rule_wrappers, rule_seq, rule_arg, rule_rest, rule_codes]
+def rule_cwd(ctx):
+    p = ctx.p
+    ctx.rule("C05.CWD", "every accepted USER (re)sets the working directory to that user's home: the store is guarded only by the presence of a session user")
+    table, _ = p.command_table()
+    u = p.method("Server", table["user"])
+    conn, rest = p.handler_params(u)
+    userf = field_names(p)["user_required"]
+    stores = [s for s, t in attr_stores(u, "current_directory", nested=False) if isinstance(s, ast.Assign)]
+    ok = bool(stores)
+    extra = []
+    for s in stores:
+        for t, pol in all_guards(p, s, u):
+            is_presence = pol and isinstance(t, ast.Call) and isinstance(t.func, ast.Attribute) and t.func.attr == "done" and isinstance(t.func.value, ast.Attribute) and t.func.value.attr == userf
+            is_state = isinstance(t, ast.Compare) and "GetUserResponse" in src(t)
+            if not (is_presence or is_state):
+                extra.append(src(t))
+        ok = ok and isinstance(s.value, ast.Attribute) and s.value.attr == "home_path"
+    ctx.ob("C05.CWD", stores[0] if stores else u, "USER stores <user>.home_path as working directory whenever a user is attached (no further condition)", ok and not extra,
+           f"USER does not reset the working directory to the user's home on every accepted USER (extra condition {extra[:1]}): after a re-login the session keeps the old directory",
+           construct=f"user:cwd reset:{extra[:1]}")
+
+
+RULES = [rule_one_end, rule_wrappers, rule_seq, rule_arg, rule_rest, rule_codes, rule_cwd]
